@@ -3,7 +3,7 @@
  * orc_code_region_allocate_codemem_dual_map, orc_code_region_allocate_codemem_anon_map,
  * orc_code_region_get_free_chunk, orc_code_allocate_codemem. */
 #include "verif.h"
-#include "../../../repo/orc/orccodemem.c"
+#include "orccodemem.c"
 
 void orc_global_mutex_lock (void) { }
 void orc_global_mutex_unlock (void) { }
